@@ -51,12 +51,13 @@ Proof.
       * split; [exact W|]. intros nm Hn. change (tname m (unwrap ty) = Some nm) in Hn. rewrite (Hfw _ _ Hn) in A. congruence.
 Qed.
 
-(* a fresh clone descends from its source, element by element *)
-Lemma clone_redesc fuel m s m1 c :
+(* a fresh clone descends from its source, element by element, one for one *)
+Lemma clone_tfull fuel m s m1 c :
   fresh_ok m -> builtins_ok m -> closed m s -> wf_schema m s -> wf_builtins s ->
   clone fuel m s = Ok (m1, c) ->
   fresh_ok m1 /\ builtins_ok m1 /\ wf_reg m1 (s_types c) /\
-  redesc (mget m) (fun n => n) (s_types s) m1 (s_types c).
+  forall n o, In (n, o) (s_types c) -> is_builtin o = false ->
+    exists t, In (n, t) (s_types s) /\ is_builtin t = false /\ tfull (mget m) (fun n0 => n0) m1 n o t.
 Proof.
   intros Hf Hb Hcl Hwf Hbi H.
   destruct (clone_owned _ _ _ _ _ Hf Hb Hcl Hwf Hbi H) as (Fown & _).
@@ -65,7 +66,7 @@ Proof.
   { intros x v Hx. rewrite (fr_frame _ _ _ Fown); [exact Hx|].
     destruct (N.lt_ge_cases x (m_next m)) as [Hlt|Hge]; [assumption|]. rewrite (Hf x Hge) in Hx. discriminate. }
   split; [assumption|]. split; [intros n b Hnb; apply Hex; apply Hb; exact Hnb|]. split; [assumption|].
-  intros n o Hin Hbo. destruct (Hback n o Hin Hbo) as (t & Ht & Hbt). exists t. split; [assumption|].
+  intros n o Hin Hbo. destruct (Hback n o Hin Hbo) as (t & Ht & Hbt). exists t. split; [assumption|]. split; [assumption|].
   destruct (Hfw n t Ht Hbt) as (t' & Hl & Hc & Hlk).
   assert (o = t').
   { pose proof (nodup_lookup _ _ _ (proj1 Hwf1) Hin) as Hl2. congruence. }
@@ -87,17 +88,20 @@ Proof.
     destruct (mget m x) as [[| | | |]|]; try contradiction; split; try discriminate; reflexivity. }
   assert (Hmc : forall x x', mget m x <> None ->
             (forall a, In a (sargs (mget m) x) -> mget m a <> None) ->
-            mcopy m1 x x' /\ mlink (s_types c) m1 x x' -> mdesc (mget m) (fun n0 => n0) m1 x' x).
+            mcopy m1 x x' /\ mlink (s_types c) m1 x x' ->
+            desc (mget m) (fun n0 => n0) m1 x' x /\
+            Forall2 (fun sa a => desc (mget m) (fun n0 => n0) m1 a sa) (sargs (mget m) x) (oargs m1 x')).
   { intros x x' Hx Hargs [(Hxc & Hac) (Hxl & Hal)]. split; [apply Hx2d; auto|].
     assert (Ho : oargs m1 x = sargs (mget m) x).
     { unfold oargs, sargs. destruct (mget m x) as [w|] eqn:Hw; [|congruence]. rewrite (Hex _ _ Hw). reflexivity. }
-    rewrite Ho in Hac, Hal. apply Forall2_subseq.
+    rewrite Ho in Hac, Hal.
     eapply Forall2_impl_in; [|exact (Forall2_and _ _ _ _ Hac Hal)]. intros a a' Hina Hxa.
     apply Hx2d; [apply Hargs; exact Hina|exact Hxa]. }
   assert (Hgen : (forall x, In x ms -> mget m x <> None /\ forall a, In a (sargs (mget m) x) -> mget m a <> None) ->
             Forall2 (mcopy m1) ms ms' -> Forall2 (mlink (s_types c) m1) ms ms' ->
-            subseq (mdesc (mget m) (fun n0 => n0) m1) ms' ms).
-  { intros Hall Hf2 Hl2. apply Forall2_subseq. eapply Forall2_impl_in; [|exact (Forall2_and _ _ _ _ Hf2 Hl2)].
+            Forall2 (fun s0 y => desc (mget m) (fun n0 => n0) m1 y s0 /\
+               Forall2 (fun sa a => desc (mget m) (fun n0 => n0) m1 a sa) (sargs (mget m) s0) (oargs m1 y)) ms ms').
+  { intros Hall Hf2 Hl2. eapply Forall2_impl_in; [|exact (Forall2_and _ _ _ _ Hf2 Hl2)].
     intros x x' Hinx Hmx. destruct (Hall x Hinx) as (A & B). apply Hmc; assumption. }
   destruct k.
   - subst ms'. rewrite Htt. constructor.
@@ -110,6 +114,25 @@ Proof.
   - subst ms'. rewrite Htt. constructor.
   - apply Hgen; [|exact Hm|exact Hlm]. intros x Hx. destruct (Hleafex _ Htt x Hx) as (A & B). split; [assumption|]. rewrite B. intros a [].
   - apply Hgen; [|exact Hm|exact Hlm]. intros x Hx. destruct (Hleafex _ Htt x Hx) as (A & B). split; [assumption|]. rewrite B. intros a [].
+Qed.
+
+Lemma tfull_tdesc src g M n o t : tfull src g M n o t -> tdesc src g M n o t.
+Proof.
+  intros (k & d & ms & ifs & r & ds & ms' & ifs' & A & B & C). exists k, d, ms, ifs, r, ds, ms', ifs'.
+  split; [assumption|]. split; [assumption|]. apply Forall2_subseq.
+  eapply Forall2_impl; [|exact C]. intros s0 y [D E]. split; [assumption|apply Forall2_subseq; exact E].
+Qed.
+
+Lemma clone_redesc fuel m s m1 c :
+  fresh_ok m -> builtins_ok m -> closed m s -> wf_schema m s -> wf_builtins s ->
+  clone fuel m s = Ok (m1, c) ->
+  fresh_ok m1 /\ builtins_ok m1 /\ wf_reg m1 (s_types c) /\
+  redesc (mget m) (fun n => n) (s_types s) m1 (s_types c).
+Proof.
+  intros Hf Hb Hcl Hwf Hbi H.
+  destruct (clone_tfull _ _ _ _ _ Hf Hb Hcl Hwf Hbi H) as (A & B & C & D).
+  split; [assumption|]. split; [assumption|]. split; [assumption|].
+  intros n o Hin Hbo. destruct (D n o Hin Hbo) as (t & Ht & _ & Hfull). exists t. split; [assumption|apply tfull_tdesc; assumption].
 Qed.
 
 (* transform_schema(schema, VisibilitySchemaTransform) *)
